@@ -112,19 +112,35 @@ Proof.
 Qed.
 
 (* ---- apply_data over the part list ---- *)
-Lemma data_parts_ok r data : forall ps pos, segs_ok r data pos ps ->
-  exists sh, data_parts ps (zskip pos data) (zlen data) = Ok sh /\ Forall2 Qeq sh (drawn_values data pos ps).
+(* behind the data nothing is drawn *)
+Lemma drawn_values_behind r data : forall ps pos, zlen data <= pos -> segs_ok r data pos ps -> drawn_values data pos ps = [].
 Proof.
-  induction ps as [|p tl IH]; intros pos H.
+  induction ps as [|p tl IH]; intros pos Hpos H; [reflexivity|].
+  unfold segs_ok in H. cbn [placed] in H. inversion H as [|x l Hp Htl]; subst x l. cbn [fst snd] in Hp.
+  destruct Hp as [_ Hp2 _ Hp3 _ _ _ _].
+  cbn [drawn_values]. assert (E : usr p = 0) by lia. rewrite E. cbn [zrange Z.to_nat seq map app].
+  apply IH; [lia|exact Htl].
+Qed.
+
+(* [max] = what is left of the dimension at position [pos] *)
+Lemma data_parts_ok r data : forall ps pos, pos < zlen data -> segs_ok r data pos ps ->
+  exists sh, data_parts ps (zskip pos data) (zlen data - pos) = Ok sh /\ Forall2 Qeq sh (drawn_values data pos ps).
+Proof.
+  induction ps as [|p tl IH]; intros pos Hlt H.
   - exists []. split; [reflexivity|constructor].
   - unfold segs_ok in H. cbn [placed] in H. inversion H as [|x l Hp Htl]; subst x l. cbn [fst snd] in Hp.
     destruct Hp as [Hp1 Hp2 _ Hp3 Hp4 Hp5 _ _].
     cbn [data_parts drawn_values].
-    assert (E : (zlen data <? usr p) = false) by (apply Z.ltb_ge; lia). rewrite E.
+    assert (E : (zlen data - pos <? usr p) = false) by (apply Z.ltb_ge; lia). rewrite E.
     destruct (part_contrib_ok data pos p) as [a [Ha Ha2]]; auto; try lia. rewrite Ha.
-    destruct (IH (pos + raw p) Htl) as [b [Hb Hb2]].
-    rewrite zskip_zskip by lia. rewrite Hb.
-    exists (a ++ b). split; [reflexivity|]. apply Forall2_app'; assumption.
+    destruct (Z.leb_spec (zlen data - pos - raw p) 0) as [Eend|Emore].
+    + (* the data ends with this part: the loop breaks, the parts behind draw nothing *)
+      rewrite (drawn_values_behind r data tl (pos + raw p)) by (try lia; exact Htl).
+      rewrite app_nil_r. exists a. split; [reflexivity|exact Ha2].
+    + destruct (IH (pos + raw p) ltac:(lia) Htl) as [b [Hb Hb2]].
+      rewrite zskip_zskip by lia.
+      replace (zlen data - pos - raw p) with (zlen data - (pos + raw p)) by lia. rewrite Hb.
+      exists (a ++ b). split; [reflexivity|]. apply Forall2_app'; assumption.
 Qed.
 
 (* ---- the counters ---- *)
@@ -166,7 +182,8 @@ Proof.
   split; [exact Hd|]. split; [exact Hseg|]. split; [exact Hsum|].
   assert (Hn : 0 < zlen data).
   { destruct data; [congruence|]. unfold zlen. cbn [length]. lia. }
-  unfold polyline_set. cbn [maxsize].
+  unfold polyline_set. unfold maxsize. cbn [maxsize_from].
+  destruct (Z.ltb_spec (-1) (zlen data)) as [_|E]; [|lia].
   destruct (Z.leb_spec (zlen data) 0) as [E|_]; [lia|].
   unfold array_set. destruct (Z.eqb_spec (zlen data) 0) as [E|_]; [lia|].
   destruct (Z.ltb_spec (zlen data) 0) as [E|_]; [lia|].
@@ -179,8 +196,8 @@ Proof.
   - right.
     assert (Hpos : 0 < sum_usr ps) by lia.
     split; [exact Hpos|].
-    destruct (data_parts_ok r data ps 0 Hseg) as [sh [Hsh Hsh2]].
-    unfold zskip in Hsh. cbn [Z.to_nat skipn] in Hsh.
+    destruct (data_parts_ok r data ps 0 Hn Hseg) as [sh [Hsh Hsh2]].
+    unfold zskip in Hsh. cbn [Z.to_nat skipn] in Hsh. rewrite Z.sub_0_r in Hsh.
     unfold apply_data_parts. cbn [apply_data_loop]. change (3 <=? 0) with false. cbv iota.
     destruct (Z.eqb_spec (zlen data) 0) as [E'|_]; [lia|].
     rewrite Hsh. cbn [apply_data_loop].
